@@ -1,7 +1,11 @@
 // Package rig: harness-owned streams and listener for driving bus servers and clients
-// through forced schedules.  A link is one direction of a connection and carries whole
-// frames (Message.Write issues exactly one Write per frame) in FIFO order.  A valve can
-// hold frames back (the writer is not blocked), and a writer can be blocked inside Write
+// through forced schedules.  A link is one direction of a connection: a byte stream made of
+// the buffers of the Write calls in the order the harness let them through.  Frames are what
+// a reader finds in that stream (header, then Size bytes of payload); when every frame is
+// written by one Write call (what Message.Write does in the pinned tree) a frame and a Write
+// call are the same thing, but nothing here relies on it: a Write call that carries only part
+// of a frame is a fragment, and the harness decides what goes between two fragments.  A valve
+// can hold frames back (the writer is not blocked), and a writer can be blocked inside Write
 // until the harness releases it.
 package rig
 
@@ -21,11 +25,24 @@ import (
 type Frame struct {
 	Hdr     net.Header
 	Payload []byte
-	Seq     int // global sequence number (order of the Write calls over all links of a Net)
+	Seq     int  // global sequence number (order in which frames were completed over all links of a Net)
+	Head    bool // the buffer starts with a frame header (magic number present)
+	Frag    bool // the buffer is not exactly one whole frame: part of a frame, or bytes a reader cannot parse
 }
 
 func (f Frame) String() string {
-	return fmt.Sprintf("{t%d s%d o%d a%d id%d %x}", f.Hdr.Type, f.Hdr.Service, f.Hdr.Object, f.Hdr.Action, f.Hdr.ID, f.Payload)
+	p := fmt.Sprintf("%x", f.Payload)
+	if len(f.Payload) > 24 {
+		p = fmt.Sprintf("%x...(%d bytes)", f.Payload[:16], len(f.Payload))
+	}
+	if !f.Head {
+		return fmt.Sprintf("{%d bytes that do not start with a header: %s}", len(f.Payload), p)
+	}
+	s := fmt.Sprintf("{t%d s%d o%d a%d id%d %s}", f.Hdr.Type, f.Hdr.Service, f.Hdr.Object, f.Hdr.Action, f.Hdr.ID, p)
+	if f.Frag {
+		s = fmt.Sprintf("{header t%d s%d o%d a%d id%d size %d followed by %d bytes}", f.Hdr.Type, f.Hdr.Service, f.Hdr.Object, f.Hdr.Action, f.Hdr.ID, f.Hdr.Size, len(f.Payload))
+	}
+	return s
 }
 
 type blockedWriter struct {
@@ -39,30 +56,44 @@ type Link struct {
 	net  *Net
 	mu   sync.Mutex
 	cond *sync.Cond
-	// frames written and held back by the valve
-	parked [][]byte
-	pframe []Frame
-	// bytes available to the reader, and the frame boundaries inside them
+	// bytes written and held back by the valve
+	pbuf []byte
+	// bytes available to the reader, and the boundaries of the released units inside them
 	avail    []byte
 	lens     []int
 	consumed int
-	nread    int // frames completely read by the other end
+	nread    int // released units (frames) completely read by the other end
 	paused   bool
 	closed   bool
-	log      []Frame
+	// the stream as a reader sees it: complete frames, in order; wbuf = bytes after the last complete frame
+	log    []Frame
+	wbuf   []byte
+	desync bool // the bytes after the last logged frame do not start with a header: no reader can go on
+	nwrite int  // Write calls that went through
 	// PauseIf: when a written frame matches, the valve closes before that frame is delivered.
 	PauseIf func(f Frame) bool
-	// BlockIf: when a frame to be written matches, the writer blocks until Release; the frame
-	// is logged and delivered (or parked) only after the release.
+	// BlockIf: when a buffer to be written matches, the writer blocks until Release; its bytes
+	// join the stream (and are delivered or parked) only after the release.
 	BlockIf func(f Frame) bool
-	blocked []*blockedWriter
+	// BlockFrag: a Write call whose buffer does not start with a header (the rest of a frame whose
+	// beginning went out with an earlier Write call) blocks until Release.
+	BlockFrag bool
+	blocked   []*blockedWriter
 }
 
 // Parse splits a written buffer into header and payload (also for headers Header.Read refuses).
+// Head: the buffer starts with the magic number; Frag: it is not exactly one whole frame.
 func Parse(p []byte) (Frame, bool) {
 	if len(p) < net.HeaderSize {
-		return Frame{}, false
+		return Frame{Payload: append([]byte(nil), p...), Frag: true}, false
 	}
+	f := parse(p)
+	f.Payload = append([]byte(nil), f.Payload...)
+	return f, true
+}
+
+// parse: like Parse for len(p) >= HeaderSize, the payload aliases p.
+func parse(p []byte) Frame {
 	var h net.Header
 	if err := h.Read(bytes.NewReader(p[:net.HeaderSize])); err != nil {
 		h.Magic = binary.BigEndian.Uint32(p[0:4])
@@ -74,7 +105,27 @@ func Parse(p []byte) (Frame, bool) {
 		h.Object = binary.LittleEndian.Uint32(p[20:24])
 		h.Action = binary.LittleEndian.Uint32(p[24:28])
 	}
-	return Frame{Hdr: h, Payload: append([]byte(nil), p[net.HeaderSize:]...)}, true
+	f := Frame{Hdr: h, Payload: p[net.HeaderSize:]}
+	f.Head = h.Magic == net.Magic
+	f.Frag = !f.Head || uint64(h.Size) != uint64(len(p)-net.HeaderSize)
+	return f
+}
+
+// next: the first frame a reader finds in buf and the number of bytes it occupies.  ok = false: buf
+// ends inside a frame.  Bytes that do not start with a header are returned as one unparsable unit.
+func next(buf []byte) (f Frame, n int, ok bool) {
+	if len(buf) < net.HeaderSize {
+		return Frame{}, 0, false
+	}
+	h := parse(buf[:net.HeaderSize])
+	if !h.Head || h.Hdr.Size > net.MaxPayloadSize {
+		return Frame{Hdr: h.Hdr, Payload: buf, Frag: true}, len(buf), true
+	}
+	n = net.HeaderSize + int(h.Hdr.Size)
+	if len(buf) < n {
+		return Frame{}, 0, false
+	}
+	return parse(buf[:n]), n, true
 }
 
 func (l *Link) write(p []byte) (int, error) {
@@ -84,7 +135,7 @@ func (l *Link) write(p []byte) (int, error) {
 		l.mu.Unlock()
 		return 0, io.ErrClosedPipe
 	}
-	if ok && l.BlockIf != nil && l.BlockIf(f) {
+	if (ok && l.BlockIf != nil && l.BlockIf(f)) || (l.BlockFrag && !f.Head) {
 		bw := &blockedWriter{f: f, rel: make(chan struct{})}
 		l.blocked = append(l.blocked, bw)
 		l.mu.Unlock()
@@ -96,18 +147,31 @@ func (l *Link) write(p []byte) (int, error) {
 			return 0, io.ErrClosedPipe
 		}
 	}
-	l.net.seqMu.Lock()
-	l.net.seq++
-	f.Seq = l.net.seq
-	l.net.seqMu.Unlock()
-	l.log = append(l.log, f)
+	b := append([]byte(nil), p...)
+	l.nwrite++
+	// the stream: frames completed by these bytes
+	l.wbuf = append(l.wbuf, b...)
+	for !l.desync {
+		g, n, ok := next(l.wbuf)
+		if !ok {
+			break
+		}
+		g.Payload = append([]byte(nil), g.Payload...)
+		l.net.seqMu.Lock()
+		l.net.seq++
+		g.Seq = l.net.seq
+		l.net.seqMu.Unlock()
+		l.log = append(l.log, g)
+		l.wbuf = l.wbuf[n:]
+		if g.Frag {
+			l.desync = true
+		}
+	}
 	if ok && !l.paused && l.PauseIf != nil && l.PauseIf(f) {
 		l.paused = true
 	}
-	b := append([]byte(nil), p...)
 	if l.paused {
-		l.parked = append(l.parked, b)
-		l.pframe = append(l.pframe, f)
+		l.pbuf = append(l.pbuf, b...)
 	} else {
 		l.avail = append(l.avail, b...)
 		l.lens = append(l.lens, len(b))
@@ -118,7 +182,7 @@ func (l *Link) write(p []byte) (int, error) {
 	return len(p), nil
 }
 
-// Blocked returns the frames of the writers currently blocked in Write.
+// Blocked returns the buffers of the writers currently blocked in Write.
 func (l *Link) Blocked() []Frame {
 	l.mu.Lock()
 	defer l.mu.Unlock()
@@ -129,7 +193,7 @@ func (l *Link) Blocked() []Frame {
 	return fs
 }
 
-// Release lets the first blocked writer whose frame matches continue.
+// Release lets the first blocked writer whose buffer matches continue.
 func (l *Link) Release(match func(Frame) bool) bool {
 	l.mu.Lock()
 	defer l.mu.Unlock()
@@ -146,37 +210,49 @@ func (l *Link) Release(match func(Frame) bool) bool {
 // Pause closes the valve.
 func (l *Link) Pause() { l.mu.Lock(); l.paused = true; l.mu.Unlock() }
 
-// Resume opens the valve and delivers the parked frames in order.
+// Resume opens the valve and delivers the parked bytes.
 func (l *Link) Resume() {
 	l.mu.Lock()
 	l.paused = false
-	for _, b := range l.parked {
-		l.avail = append(l.avail, b...)
-		l.lens = append(l.lens, len(b))
+	if len(l.pbuf) > 0 {
+		l.avail = append(l.avail, l.pbuf...)
+		l.lens = append(l.lens, len(l.pbuf))
 	}
-	l.parked, l.pframe = nil, nil
+	l.pbuf = nil
 	l.cond.Broadcast()
 	l.mu.Unlock()
 }
 
-// Parked returns the frames held back by the valve.
+// Parked returns the frames held back by the valve, as the reader will find them: complete frames only
+// (bytes that end inside a frame are not listed until the rest has been written); bytes that do
+// not start with a header are listed as one unparsable unit (Frag set, Head not set).
 func (l *Link) Parked() []Frame {
 	l.mu.Lock()
 	defer l.mu.Unlock()
-	return append([]Frame(nil), l.pframe...)
+	var fs []Frame
+	buf := l.pbuf
+	for {
+		f, n, ok := next(buf)
+		if !ok {
+			return fs
+		}
+		fs = append(fs, f)
+		buf = buf[n:]
+	}
 }
 
 // ReleaseOne delivers the first parked frame and keeps the valve closed.
 func (l *Link) ReleaseOne() (Frame, bool) {
 	l.mu.Lock()
 	defer l.mu.Unlock()
-	if len(l.parked) == 0 {
+	f, n, ok := next(l.pbuf)
+	if !ok {
 		return Frame{}, false
 	}
-	b, f := l.parked[0], l.pframe[0]
-	l.parked, l.pframe = l.parked[1:], l.pframe[1:]
-	l.avail = append(l.avail, b...)
-	l.lens = append(l.lens, len(b))
+	f.Payload = append([]byte(nil), f.Payload...)
+	l.avail = append(l.avail, l.pbuf[:n]...)
+	l.lens = append(l.lens, n)
+	l.pbuf = l.pbuf[n:]
 	l.cond.Broadcast()
 	return f, true
 }
@@ -220,7 +296,13 @@ func (l *Link) Closed() bool { l.mu.Lock(); defer l.mu.Unlock(); return l.closed
 // Read reports how many frames the other end has completely read.
 func (l *Link) Read() int { l.mu.Lock(); defer l.mu.Unlock(); return l.nread }
 
-// Frames returns a copy of the log of frames written on the link.
+// Writes reports how many Write calls went through (were not refused and are not blocked).
+func (l *Link) Writes() int { l.mu.Lock(); defer l.mu.Unlock(); return l.nwrite }
+
+// Desync reports that the bytes written after the last frame of the log do not start with a header.
+func (l *Link) Desync() bool { l.mu.Lock(); defer l.mu.Unlock(); return l.desync }
+
+// Frames returns a copy of the log of the frames of the stream (in the order a reader finds them).
 func (l *Link) Frames() []Frame {
 	l.mu.Lock()
 	defer l.mu.Unlock()
